@@ -282,6 +282,7 @@ type inst struct {
 	// it the value must still be there.  Two maps share nothing (package-level caches, pools or
 	// locks would couple them).
 	tw    kvAPI
+	elem  int
 	twN   [16]int
 	twErr [16]string
 }
@@ -362,6 +363,22 @@ func (x *inst) Do(t int, op sim.Op) sim.Rec {
 	case "Clear":
 		x.m.Clear()
 		r.OK = true
+	case "Fresh":
+		// a map created while the others are in use (capacity hint 0 or small): private
+		f := newKV(x.elem, []int{0, 0, 1, 4}[(t+op.V)%4])
+		k, v := 300+t, t<<16|op.V|1
+		n0 := f.Len()
+		nx := f.SetNx(k, v)
+		got, ok := f.Get(k)
+		ks := f.Keys()
+		n1 := f.Len()
+		f.Delete(k)
+		n2 := f.Len()
+		if x.elem == 4 {
+			v = 0
+		}
+		r.OK = n0 == 0 && nx && ok && got == v && len(ks) == 1 && ks[0] == k && n1 == 1 && n2 == 0
+		r.Vs = []int{n0, n1, n2, got, len(ks)}
 	default:
 		panic("c12: unknown op " + op.Op)
 	}
@@ -384,7 +401,7 @@ func clampOp(op sim.Op) sim.Op {
 }
 
 var opNames = []string{"Get", "Set", "SetNx", "SetX", "Delete", "Has", "Contains", "Len", "Keys", "Values", "Range", "All",
-	"GetWithMap", "GetWithLock", "MapMove", "MapSetLen", "Clear"}
+	"GetWithMap", "GetWithLock", "MapMove", "MapSetLen", "Clear", "Fresh"}
 
 func gen(r *sim.Rng, tier string) *sim.Case {
 	maxT, maxOps := 4, 4
@@ -421,6 +438,10 @@ func gen(r *sim.Rng, tier string) *sim.Case {
 		if r.Pct(55) {
 			w[i] = r.Range(1, 4)
 		}
+	}
+	w[len(w)-1] = 0
+	if r.Pct(12) {
+		w[len(w)-1] = 1 // Fresh: a new map is created (and used) while the others are in use
 	}
 	w[1+r.N(3)] += 2 // always some writer
 	if c.Params["elem"] == 4 {
@@ -499,7 +520,7 @@ func setKeys(c *sim.Case) {
 
 func build(c *sim.Case) enga.Instance {
 	setKeys(c)
-	x := &inst{m: newKV(c.P("elem"), r2(c.P("init_mask"))), init: map[int]int{}}
+	x := &inst{m: newKV(c.P("elem"), r2(c.P("init_mask"))), init: map[int]int{}, elem: c.P("elem")}
 	if c.P("twin") == 1 && c.P("elem") != 4 {
 		x.tw = newKV(c.P("elem"), 0)
 	}
@@ -720,6 +741,12 @@ func check(run *enga.Run) *sim.Violation {
 			r := recs[t][i]
 			if !r.Done {
 				continue
+			}
+			if op.Op == "Fresh" {
+				if !r.OK {
+					return &sim.Violation{Class: "fresh_instance_disturbed", Site: "mapz.NewSafeKV", Detail: fmt.Sprintf("a map created while other maps are in use: Len() before/after SetNx/after Delete = %d/%d/%d, Get = %#x, %d keys (expected 0/1/0, the stored value and one key)", r.Vs[0], r.Vs[1], r.Vs[2], r.Vs[3], r.Vs[4])}
+				}
+				continue // another map: not part of this map's history
 			}
 			if len(r.Ks) != len(r.Vs) && (op.Op == "Range" || op.Op == "All") {
 				return &sim.Violation{Class: "model_mismatch:" + op.Op, Site: site + "." + op.Op, Detail: "callback saw unequal numbers of keys and values"}
